@@ -10,6 +10,7 @@ are compared with the model's; object identity is followed across the whole beha
 seen for a key must stay the object for that key).
 """
 import copy
+import gc
 import pickle
 import random
 
@@ -47,7 +48,8 @@ def replay(arg):
             return 777
         return amap.get(mz, {}).get(ma, 700 + ma)      # an isotope number of the other element: not an isotope here
 
-    tables = {PUB: periodictable.elements}
+    tables = {PUB: periodictable.elements}         # the tables the caller still holds (model variable `held`)
+    elems = {PUB: dict((mz, periodictable.elements[zmap[mz]]) for mz in (1, 8))}   # kept element objects per table
     seen = {}        # model key (tab, z, a, q) -> real object
     owner = {}       # id(real object) -> model key
     keep = []        # keep every object alive so id() stays unique
@@ -56,11 +58,9 @@ def replay(arg):
         """real heap restricted to the mapped universe: {(tab, mz, ma, mq): object}; unmapped ions/isotopes of the
         mapped elements are reported under ('?', ...) keys"""
         out = {}
-        for T, t in tables.items():
+        for T in elems:
             for mz in (1, 8):
-                el = t._element.get(zmap[mz])
-                if el is None:
-                    continue
+                el = elems[T][mz]
                 out[(T, mz, 0, 0)] = el
                 inv_a = dict((v, k) for k, v in amap[mz].items() if k)
                 inv_q = {}
@@ -86,7 +86,7 @@ def replay(arg):
 
     def fetch(key):
         T, mz, ma, mq = key
-        o = tables[T]._element[zmap[mz]]
+        o = elems[T][mz]
         if ma:
             o = o._isotopes[ra(mz, ma)]
         if mq:
@@ -132,23 +132,26 @@ def replay(arg):
         res = None
         try:
             if op == "NewTable":
-                t = core.PeriodicTable(T)
-                tables[T] = t
+                tables[T] = core.PeriodicTable(T)
+                elems[T] = dict((m, tables[T][zmap[m]]) for m in (1, 8))
+                got = "ok"
+            elif op == "DropTable":
+                del tables[T]           # the caller keeps atoms only; the registry must keep the table alive
+                gc.collect()
                 got = "ok"
             elif op == "LoadMass":
                 mass.init(tables[T])
                 got = "ok"
             elif op == "AddIsotope":
-                before = set(tables[T][zmap[mz]]._isotopes)
-                res = tables[T][zmap[mz]].add_isotope(ra(mz, ma))
+                before = set(elems[T][mz]._isotopes)
+                res = elems[T][mz].add_isotope(ra(mz, ma))
                 got = "found" if ra(mz, ma) in before else "created"
             elif op == "LookupBase":
                 route, fn = base_lookup(tables[T], mz, ma)
                 res = fn()
                 got = "found"
             elif op == "GetIon":
-                t = tables[T]
-                base = t[zmap[mz]]
+                base = elems[T][mz]
                 if ma:
                     base = base[ra(mz, ma)]
                 cache = base.ion.ionset
@@ -169,15 +172,14 @@ def replay(arg):
                 got = "found"
             elif op == "ChangeTable":
                 src = fetch((act["sT"], mz, ma, mq))
-                t2 = tables[T]
-                base = t2._element[zmap[mz]]
+                base = elems[T][mz]
                 had = True
                 if ma:
                     base = base._isotopes.get(ra(mz, ma))
                 if mq and base is not None:
                     ionset = base.__dict__.get("ion")
                     had = ionset is not None and qmap[mz][mq] in ionset.ionset
-                res = core.change_table(src, t2)
+                res = core.change_table(src, tables[T])
                 got = "found" if had else "created"
             else:
                 raise RuntimeError("unknown op " + op)
@@ -187,6 +189,7 @@ def replay(arg):
             exc = type(e).__name__
         else:
             exc = None
+        fn = None               # (the route closures name the table)
         heap = project()
         clause = None
         exp = set((o["tab"], o["z"], o["a"], o["q"]) for o in st["heap"])
